@@ -58,7 +58,7 @@ func init() {
 //	root/tmp (TMPDIR while action.Pull runs)  root/home (helm repository config/cache for Pull)
 type c16Box struct{ root, dest, outside string }
 
-const c16AbsEscape = "/c16-abs-escape"
+const c16AbsEscape = "/tmp/c16-abs-escape"
 
 func c16NewBox(tb vt.TB) *c16Box {
 	root, err := os.MkdirTemp("", "c16-")
@@ -286,8 +286,31 @@ func c16JudgeA(tb vt.TB, c *c16ACase) c16Verdict {
 				continue
 			}
 		}
-		full := filepath.Join(box.dest, p.Path)
-		_ = os.MkdirAll(filepath.Dir(full), 0o755)
+		// the harness itself must not write through a link planted earlier: parents are created one real
+		// directory at a time and nothing is planted on top of an existing path
+		full := box.dest
+		parts := strings.Split(p.Path, "/")
+		usable := true
+		for i, part := range parts {
+			full = filepath.Join(full, part)
+			fi, lerr := os.Lstat(full)
+			if i == len(parts)-1 {
+				usable = lerr != nil
+				break
+			}
+			if lerr != nil {
+				if os.Mkdir(full, 0o755) != nil {
+					usable = false
+					break
+				}
+			} else if !fi.IsDir() {
+				usable = false
+				break
+			}
+		}
+		if !usable {
+			continue
+		}
 		switch p.Kind {
 		case "dir":
 			_ = os.MkdirAll(full, 0o755)
@@ -520,11 +543,11 @@ func c16JudgeA(tb vt.TB, c *c16ACase) c16Verdict {
 var (
 	c16Benign  = []string{"templates", "a", "x", "values.yaml", "charts", "lnk", "f.txt", "crds", "canary"}
 	c16Hostile = []string{"..", "..", "..", ".", "", "C:", "c:", "..a", "a..", "...", "ü", "b c", "outside", "canary", "mid", "$OUT", "\x00x", "\xff\xfe", strings.Repeat("n", 120), ". .", "..\u2215", " .."}
-	c16Prefix  = []string{"", "", "/", "mychart/", "mychart/", "mychart\\", "c:\\", "C:/", "\\\\", "$OUT/", "$ROOT/mid/", "//", "./", "mychart/../", "../../outside/", "../../../outside/", "mychart/../../../outside/", "..\\..\\outside\\", "mychart\\..\\..\\..\\outside\\", "/c16-abs-escape/", "mychart//", "mychart/./"}
-	c16Links   = []string{"$OUT", "$OUT/canary", "../../outside", "../../../outside/canary", "..", "/", "x", "$ROOT/rootcanary", "../../outside/sub", "mychart/values.yaml", "/c16-abs-escape"}
-	c16ChartNm = []string{"mychart", "mychart", "mychart", "mychart", "mychart", "..", "../outside", "../../outside", ".", "a/b", "/abs", "$OUT", "$OUT/pwn", "lnk", "mychart/../..", "", "C:\\x", "..\\..\\outside", "/c16-abs-escape", "lnk/x"}
+	c16Prefix  = []string{"", "", "/", "mychart/", "mychart/", "mychart\\", "c:\\", "C:/", "\\\\", "$OUT/", "$ROOT/mid/", "//", "./", "mychart/../", "../../outside/", "../../../outside/", "mychart/../../../outside/", "..\\..\\outside\\", "mychart\\..\\..\\..\\outside\\", "/tmp/c16-abs-escape/", "mychart//", "mychart/./"}
+	c16Links   = []string{"$OUT", "$OUT/canary", "../../outside", "../../../outside/canary", "..", "/", "x", "$ROOT/rootcanary", "../../outside/sub", "mychart/values.yaml", "/tmp/c16-abs-escape"}
+	c16ChartNm = []string{"mychart", "mychart", "mychart", "mychart", "mychart", "..", "../outside", "../../outside", ".", "a/b", "/abs", "$OUT", "$OUT/pwn", "lnk", "mychart/../..", "", "C:\\x", "..\\..\\outside", "/tmp/c16-abs-escape", "lnk/x"}
 	c16PlantAt = []string{"mychart", "mychart/templates", "mychart/values.yaml", "mychart/Chart.yaml", "lnk", "a", "mychart/charts", "mychart/a", "templates", "x", "mychart/lnk", "sub", "sub/mychart", "mychart/x", "plugin.yaml", "outside", "abs"}
-	c16PlantTo = []string{"$OUT", "$OUT", "$OUT/canary", "$OUT/missing", "REL/outside", "REL/outside/canary", "REL/outside/sub", "REL/rootcanary", "..", "/", "$ROOT/rootcanary", "$DEST", ".", "$ROOT/mid", "/c16-abs-escape"}
+	c16PlantTo = []string{"$OUT", "$OUT", "$OUT/canary", "$OUT/missing", "REL/outside", "REL/outside/canary", "REL/outside/sub", "REL/rootcanary", "..", "/", "$ROOT/rootcanary", "$DEST", ".", "$ROOT/mid", "/tmp/c16-abs-escape"}
 	c16URLs    = []string{"/charts/mychart-1.0.0.tgz", "/charts/mychart-1.0.0.tgz", "/charts/mychart-1.0.0.tgz", "/charts/mychart-1.0.0.tgz", "/mychart", "/", "/..", "/a/%2e%2e", "/x/..%2f..%2fy.tgz", "/x/..%2f..%2f..%2foutside%2fy.tgz", "/x/..%2f..%2fy.tgz", "/a%5c..%5cb.tgz", "/.", "/a/", "/%2e%2e/", "//", "/a/..%2f", "/x/%2e"}
 )
 
@@ -772,13 +795,13 @@ func c16JSON(v interface{}) string {
 }
 
 func TestC16A(t *testing.T) {
-	evid.Extra("rule", "C16A: rapid-generated tar+gzip streams written with a raw header encoder (names from a hostile component/prefix grammar with mixed / and \\ separators, absolute and drive prefixes, '..', NUL, invalid UTF-8, long names in ustar-prefix/GNU-L/PAX encodings; regular, old-regular, dir, symlink, hard link, device, fifo, sparse, global-pax and unknown type flags; link names pointing at sandbox canaries; entries routed through an earlier link entry; nested charts/*.tgz; lying size fields; byte flips with optional checksum repair; split/truncated/trailing gzip framing) x destination layouts with planted symlinks/files/dirs, run through LoadArchiveFiles, LoadArchive, Expand, ExpandFile, TarGzExtractor.Extract, installer.HTTPInstaller.Install (loopback HTTP; cache and data home under the destination) and action.Pull (loopback HTTP, odd download names, untar). Oracle: snapshot (type, mode, link target, sha256, mtime) of the sandbox tree without following links before/after: nothing outside root/mid/dest may differ (also when the call fails; TMPDIR and the helm home of Pull are exempt) and /c16-abs-escape must not appear; every file name exposed by a loaded archive/chart (incl. subcharts) is non-empty, relative, path.Clean-stable, without '..' component, backslash or '<letter>:/' prefix. Non-trivial = the case contains a hostile name, a link entry, a planted symlink or an odd download name; distinct by the JSON of the case.")
+	evid.Extra("rule", "C16A: rapid-generated tar+gzip streams written with a raw header encoder (names from a hostile component/prefix grammar with mixed / and \\ separators, absolute and drive prefixes, '..', NUL, invalid UTF-8, long names in ustar-prefix/GNU-L/PAX encodings; regular, old-regular, dir, symlink, hard link, device, fifo, sparse, global-pax and unknown type flags; link names pointing at sandbox canaries; entries routed through an earlier link entry; nested charts/*.tgz; lying size fields; byte flips with optional checksum repair; split/truncated/trailing gzip framing) x destination layouts with planted symlinks/files/dirs, run through LoadArchiveFiles, LoadArchive, Expand, ExpandFile, TarGzExtractor.Extract, installer.HTTPInstaller.Install (loopback HTTP; cache and data home under the destination) and action.Pull (loopback HTTP, odd download names, untar). Oracle: snapshot (type, mode, link target, sha256, mtime) of the sandbox tree without following links before/after: nothing outside root/mid/dest may differ (also when the call fails; TMPDIR and the helm home of Pull are exempt) and /tmp/c16-abs-escape must not appear; every file name exposed by a loaded archive/chart (incl. subcharts) is non-empty, relative, path.Clean-stable, without '..' component, backslash or '<letter>:/' prefix. Non-trivial = the case contains a hostile name, a link entry, a planted symlink or an odd download name; distinct by the JSON of the case.")
 	evid.Extra("assumptions", []string{
 		"Linux path semantics only (a name like 'C:x' is an ordinary relative name here; noted, not judged)",
 		"reads that follow a link out of the destination are not observable by a snapshot; only creations/modifications/deletions are judged",
 		"the destination itself is a real directory two levels below the sandbox root; planted hard links are not generated",
 		"action.Pull is served over a loopback HTTP listener; TMPDIR is pointed into the sandbox for the duration of the call",
-		"changes outside the sandbox root are only detected at the fixed path /c16-abs-escape",
+		"changes outside the sandbox root are only detected at the fixed path /tmp/c16-abs-escape",
 	})
 	rapid.Check(t, func(t *rapid.T) {
 		c := c16GenA(t)
